@@ -25,6 +25,7 @@ typedef PPL::Rational_Box BOX;
 static Args ARGS;
 static bool VERBOSE = false;
 static bool PROFILE = false;
+static bool STRICT_PR2 = false;   // --strict-pr2: demand completeness of the PR_2 entry points also when pset_before is looser than the projection
 static std::map<std::string, std::pair<double, long> > PROF;
 static double cpu_s() { struct timespec ts; clock_gettime(CLOCK_PROCESS_CPUTIME_ID, &ts); return ts.tv_sec + ts.tv_nsec * 1e-9; }
 struct ProfT { const char* k; double t0; ProfT(const char* k_) : k(k_), t0(PROFILE ? cpu_s() : 0) {} ~ProfT() { if (PROFILE) { std::pair<double, long>& p = PROF[k]; p.first += cpu_s() - t0; p.second++; } } };
@@ -354,14 +355,16 @@ static void viol(const Ctx& c, const std::string& clause, const std::string& obs
 static std::string mu_str(const Vec& mu) { return "mu=" + ref::vec_str(mu); }
 
 // o: oracle for the exact relation the pointset denotes (if c.precise) or for a relation the pointset encloses (soundness)
-static void judge(const Ctx& c, int fn, const Res& r, const Oracle& o) {
+static void judge(const Ctx& c0, int fn, const Res& r, const Oracle& o) {
   RefGuard guard;
   ProfT pt("oracle:judge");
+  Ctx c = c0;
   int n = c.n;
   count(CNT_TRANS);
   const bool is_pr = (fn == 1 || fn == 3 || fn == 5);
+  if (STRICT_PR2 && is_pr && c.precise && !c.precise_pr) { c.precise_pr = true; if (c.trigger == "none") c.trigger = "pset_before_looser_than_projection"; }
   const bool precise = is_pr ? c.precise_pr : c.precise;
-  if (fn == 1 && c.precise && !c.precise_pr && !r.threw && !r.b && o.exists) count(C_PR2_LOOSE_INCOMPLETE);
+  if (fn == 1 && c0.precise && !c0.precise_pr && !r.threw && !r.b && o.exists) count(C_PR2_LOOSE_INCOMPLETE);
   if (r.threw) { viol(c, "unexpected-exception", r.exc, "normal return"); return; }
   if (fn <= 3) {
     count(r.b ? C_TRUE_ANSWERS : C_FALSE_ANSWERS);
@@ -694,6 +697,7 @@ int main(int argc, char** argv) {
   build_menus();
   long long only_item = atoll(ARGS.opt("--item", "-1").c_str());
   SPACE = ARGS.opt("--space", ARGS.tier);
+  STRICT_PR2 = ARGS.has("--strict-pr2");
   if (!ARGS.replay.empty()) {
     std::ifstream f(ARGS.replay.c_str()); std::stringstream ss; ss << f.rdbuf();
     std::string txt = ss.str();
@@ -714,10 +718,21 @@ int main(int argc, char** argv) {
     build_items(2, 2, 1, 1, 8);
     bound = "tiny (development)";
   } else {
-    build_items(1, 3, 1, 1, 16);
+    // sized to about 350 CPU seconds
+    build_items(1, 3, 1, 1, 16, [](int np, int, bool line) { return !line || np <= 2; });
     build_items(2, 3, 1, 1, 10);
-    bound = "n=1: every generator system of 1..3 points from {-1,0,1,2}^2 (16) + <=1 ray of 8 + <=1 line of 3; "
+    bound = "n=1: every generator system of 1..3 points from {-1,0,1,2}^2 (16) + <=1 ray of 8 + <=1 line of 3 (a line only with <=2 points); "
             "n=2: 1..3 points of the first 10 menu points in {-1,0,1,2}^4 + <=1 ray of 7 + <=1 line of 4; plus the empty relation";
+  }
+  // a fixed permutation of the enumerated space (every item is still visited exactly once): balances the shards and
+  // mixes n = 1 and n = 2 so that a run cut by its deadline has covered both
+  {
+    std::vector<std::pair<unsigned, size_t> > key(ITEMS.size());
+    for (size_t i = 0; i < ITEMS.size(); ++i) key[i] = std::make_pair((unsigned)((i + 1) * 2654435761u), i);
+    std::sort(key.begin(), key.end());
+    std::vector<Item> perm(ITEMS.size());
+    for (size_t i = 0; i < key.size(); ++i) perm[i] = ITEMS[key[i].second];
+    ITEMS.swap(perm);
   }
   bound += "; each as C_Polyhedron, NNC_Polyhedron (<=3 closure-point patterns), BD_Shape/Octagonal_Shape<mpq_class>/Rational_Box, "
            "before/after pairs (projection, universe, 4 cutting `before' sets, NNC pair, 3 shape pairs); 7 entry points each; "
@@ -764,7 +779,7 @@ int main(int argc, char** argv) {
   }
   bool complete = counter(CNT_SKIPPED) == 0 && counter(CNT_REFCRASH) == 0;
   std::vector<std::string> samples;
-  for (size_t i = 1; i < ITEMS.size(); i += std::max<size_t>(1, ITEMS.size() / 5))
+  for (size_t i = 0; i < ITEMS.size(); i += std::max<size_t>(1, ITEMS.size() / 5))
     samples.push_back(J().num("n", ITEMS[i].n).str("gens_xprime_x", gm_text(item_gens(ITEMS[i]))).done());
   J extra;
   extra.num("relations", counter(C_REL)).num("relations_n1", counter(C_REL_N1)).num("relations_n2", counter(C_REL_N2))
